@@ -14,6 +14,7 @@ import os
 import random
 import subprocess
 import sys
+import time
 
 from . import astlib
 from .astlib import ShapeError
@@ -149,6 +150,133 @@ def _flag_no_shape_exit():
     return not any(isinstance(n, ast.Attribute) and n.attr == "shape" for n in ast.walk(fn))
 
 
+# ---- no verb writes into an operand -------------------------------------------------------------------------
+FRESH_CALLS = {"copy", "array", "astype", "tolist", "tile", "concatenate", "str_to_chr_arr", "str_to_char_array", "flatten", "list", "full", "empty"}
+WRITE_METHODS = {"sort", "fill", "resize", "put", "itemset", "append", "extend", "insert", "pop", "remove", "clear", "setflags", "partition"}
+WRITE_FUNCS = {"put", "copyto", "place", "putmask", "put_along_axis"}
+
+
+def _is_dict_guard(test):
+    src = ast.unparse(test)
+    return "is_dict(" in src or "dict)" in src
+
+
+def _writes_to_params(fn):
+    """stores into a parameter object that was not replaced by a fresh copy in an enclosing, earlier statement.
+    Dictionary updates guarded by is_dict / isinstance(.., dict) are the documented in-situ behaviour and are skipped."""
+    params = {a.arg for a in fn.args.args} - {"self", "backend", "klong", "f"}
+    found = []
+
+    def fresh_value(e):
+        if isinstance(e, ast.Call):
+            f = e.func
+            name = f.attr if isinstance(f, ast.Attribute) else getattr(f, "id", None)
+            return name in FRESH_CALLS
+        return False
+
+    def base_name(t):
+        while isinstance(t, (ast.Subscript, ast.Attribute)):
+            t = t.value
+        return t.id if isinstance(t, ast.Name) else None
+
+    def check_expr(node, fresh):
+        for n in ast.walk(node):
+            if isinstance(n, ast.Call):
+                f = n.func
+                if isinstance(f, ast.Attribute) and f.attr in WRITE_METHODS and isinstance(f.value, ast.Name) \
+                        and f.value.id in params and f.value.id not in fresh:
+                    found.append("%s: %s.%s(...)" % (fn.name, f.value.id, f.attr))
+                fname = f.attr if isinstance(f, ast.Attribute) else getattr(f, "id", None)
+                if fname in WRITE_FUNCS and n.args and isinstance(n.args[0], ast.Name) and n.args[0].id in params \
+                        and n.args[0].id not in fresh and not (isinstance(f, ast.Attribute) and isinstance(f.value, ast.Name) and f.value.id in params):
+                    found.append("%s: %s(%s, ...)" % (fn.name, fname, n.args[0].id))
+
+    def block(stmts, fresh):
+        fresh = set(fresh)
+        for st in stmts:
+            if isinstance(st, (ast.FunctionDef, ast.AsyncFunctionDef, ast.ClassDef)):
+                continue
+            if isinstance(st, ast.Assign):
+                check_expr(st.value, fresh)
+                for t in st.targets:
+                    if isinstance(t, ast.Name):
+                        if t.id in params:
+                            if fresh_value(st.value):
+                                fresh.add(t.id)
+                            else:
+                                fresh.discard(t.id)
+                    else:
+                        b = base_name(t)
+                        if b in params and b not in fresh:
+                            found.append("%s: %s[...] = ..." % (fn.name, b))
+            elif isinstance(st, ast.AugAssign):
+                b = base_name(st.target)
+                if b in params and b not in fresh and not isinstance(st.target, ast.Name):
+                    found.append("%s: %s[...] op= ..." % (fn.name, b))
+                if isinstance(st.target, ast.Name) and st.target.id in params and st.target.id not in fresh:
+                    found.append("%s: %s op= ... (in place for arrays)" % (fn.name, st.target.id))
+                check_expr(st.value, fresh)
+            elif isinstance(st, ast.Delete):
+                for t in st.targets:
+                    b = base_name(t)
+                    if b in params and b not in fresh and not isinstance(t, ast.Name):
+                        found.append("%s: del %s[...]" % (fn.name, b))
+            elif isinstance(st, ast.If):
+                check_expr(st.test, fresh)
+                if not _is_dict_guard(st.test):
+                    block(st.body, fresh)
+                block(st.orelse, fresh)
+            elif isinstance(st, (ast.For, ast.While)):
+                check_expr(st.iter if isinstance(st, ast.For) else st.test, fresh)
+                block(st.body, fresh)
+                block(st.orelse, fresh)
+            elif isinstance(st, ast.Try):
+                if any(isinstance(h.type, ast.Name) and h.type.id == "KeyError" for h in st.handlers) and _under_dict.get(id(st)):
+                    continue
+                block(st.body, fresh)
+                for h in st.handlers:
+                    block(h.body, fresh)
+                block(st.orelse, fresh)
+                block(st.finalbody, fresh)
+            elif isinstance(st, ast.With):
+                block(st.body, fresh)
+            else:
+                check_expr(st, fresh)
+
+    _under_dict = {}
+    block(astlib.body_no_doc(fn), set())
+    return found
+
+
+def _flag_no_operand_writes():
+    bad = []
+    for rel, pred in (("klongpy/monads.py", lambda n: n.startswith(("eval_monad_", "_e_", "__e_"))),
+                      ("klongpy/dyads.py", lambda n: n.startswith(("eval_dyad_", "_e_", "__e_", "finditer", "_arr_to_list", "_safe_equal")))):
+        m = astlib.module(rel)
+        for n in m.body:
+            if isinstance(n, ast.FunctionDef) and pred(n.name):
+                bad += _writes_to_params(n)
+    cls = astlib.find_class(astlib.module("klongpy/backends/base.py"), "BackendProvider")
+    for name in ("vec_fn", "vec_fn2", "rec_fn", "kg_equal", "floor_to_int", "to_int_array", "safe_equal"):
+        bad += _writes_to_params(astlib.find_func(cls, name))
+    cls = astlib.find_class(astlib.module("klongpy/backends/numpy_backend.py"), "NumpyBackendProvider")
+    for name in ("kg_asarray", "str_to_char_array", "argsort"):
+        bad += _writes_to_params(astlib.find_func(cls, name))
+    if bad:
+        raise ShapeError("a verb writes into an operand: " + "; ".join(bad[:4]))
+    return True
+
+
+def _flag_floor_guard():
+    """floor_to_int keeps the real unless |floor| < 2.0**63 (strictly): the real 2^63 itself does not fit int64"""
+    cls = astlib.find_class(astlib.module("klongpy/backends/base.py"), "BackendProvider")
+    fn = astlib.find_func(cls, "floor_to_int")
+    for st in ast.walk(fn):
+        if isinstance(st, ast.If) and "np.all" in ast.unparse(st.test):
+            return ast.unparse(st.test).replace(" ", "") == "notnp.all(np.abs(result)<2.0**63)"
+    raise ShapeError("floor_to_int: range guard not found")
+
+
 def coq_zs(s):
     return "[" + "; ".join(str(ord(c)) for c in s) + "]"
 
@@ -176,7 +304,8 @@ def generate():
                    ";\n   ".join("(%s%%Z, %s)" % (coq_zs(k), astlib.coq_string(f)) for k, f in dy) + "].")
     for name, fn in (("reverse_guards_atoms", _flag_reverse), ("rotate_uses_axis0", _flag_rotate),
                      ("split_by_segment_size", _flag_split), ("reshape_guards_symbols", _flag_reshape),
-                     ("kg_equal_ints_exact", _flag_ints_exact), ("kg_equal_no_shape_exit", _flag_no_shape_exit)):
+                     ("kg_equal_ints_exact", _flag_ints_exact), ("kg_equal_no_shape_exit", _flag_no_shape_exit),
+                     ("verbs_do_not_write_operands", _flag_no_operand_writes), ("floor_guard_strictly_below_2_63", _flag_floor_guard)):
         v, why = astlib.try_flag(fn)
         out.append("Definition %s : bool := %s.%s" % (name, astlib.coq_bool(bool(v)),
                                                     "" if why is None else "  (* shape not recognised: %s *)" % why))
@@ -347,7 +476,7 @@ signal.signal(signal.SIGALRM, onalarm)
 texts = json.load(sys.stdin)
 klong = KlongInterpreter()
 out = []
-for t in texts:
+def one(t):
     try:
         signal.alarm(30)
         v = klong(t)
@@ -358,7 +487,10 @@ for t in texts:
     except BaseException as e:
         signal.alarm(0)
         r = "ERR:" + type(e).__name__
-    out.append(r)
+    return r
+for t in texts:
+    # a case is one expression, or a program: a list of statements evaluated in order by the same interpreter
+    out.append([one(st) for st in t] if isinstance(t, list) else one(t))
 sys.stdout.write("RESULTS " + json.dumps(out) + "\n")
 sys.stdout.flush()
 '''
@@ -373,15 +505,19 @@ def run_impl(texts, nproc=8):
     procs = []
     for sh in shards:
         p = subprocess.Popen([PY, "-W", "ignore", "-c", CHILD % {"verif": VERIF}], stdin=subprocess.PIPE, stdout=subprocess.PIPE,
-                             stderr=subprocess.PIPE, env=env)
+                             stderr=subprocess.STDOUT, env=env)
         procs.append(p)
-    # feed all first (pipes are read by communicate, sequentially; payloads are small)
+    # feed every child first (a child reads its whole input before it starts), then collect: the shards run in parallel
+    for p, sh in zip(procs, shards):
+        p.stdin.write(json.dumps(sh).encode())
+        p.stdin.close()
     outs = []
     for p, sh in zip(procs, shards):
-        o, e = p.communicate(json.dumps(sh).encode())
-        lines = [l for l in o.decode().split("\n") if l.startswith("RESULTS ")]
+        o = p.stdout.read()
+        p.wait()
+        lines = [l for l in o.decode("utf-8", "replace").split("\n") if l.startswith("RESULTS ")]
         if not lines:
-            raise RuntimeError("implementation shard failed: " + e.decode()[-1500:])
+            raise RuntimeError("implementation shard failed: " + o.decode("utf-8", "replace")[-1500:])
         r = json.loads(lines[0][8:])
         if len(r) != len(sh):
             raise RuntimeError("implementation shard returned %d results for %d cases" % (len(r), len(sh)))
@@ -505,6 +641,187 @@ def rep_cases(keys_m, keys_d, U, tier, rng):
             if not hangs(f, v, v):
                 cs.append(Case(f, keys_d[f], v, v, ta=tx, tb=tx))
     return cs, len(ops)
+
+
+# ---- repeated evaluation: the same operand OBJECT is used by a verb more than once (a literal inside a function body
+# called twice, a variable, the body of Each).  A verb that writes into an operand is right on a fresh literal and wrong
+# the second time.  Oracle: the spec applied independently to every call; a variable holding an operand is unchanged.
+import struct as _struct
+
+
+def lit_of_sx(v):
+    """canonical value (parsed s-expression) -> Klong literal text, None when it has no literal (undefined)"""
+    t = v[0]
+    if t == "i":
+        return str(v[1])
+    if t == "r":
+        x = _struct.unpack(">d", _struct.pack(">Q", v[1]))[0]
+        if x != x or x in (float("inf"), float("-inf")):
+            return None
+        return repr(x)
+    if t == "c":
+        return "0c" + chr(v[1])
+    if t == "s":
+        return '"' + "".join(chr(c) for c in v[1:]).replace('"', '""') + '"'
+    if t == "y":
+        return ":" + "".join(chr(c) for c in v[1:])
+    if t == "l":
+        parts = [lit_of_sx(e) for e in v[1:]]
+        return None if any(q is None for q in parts) else "[" + " ".join(parts) + "]"
+    return None
+
+
+REPEAT_A = [I(0), I(1), I(2), I(3), I(-1), I(-2), R(2.5), C("a"), S("ab"), S("hello"),
+            lit([1]), lit([2]), lit([0, 1]), lit([1, 2]), lit([-1, 2]), lit([2, -1]), lit([2, 2, 2]), lit([3, 1, 2]),
+            lit([1, 2, 3, 4, 5, 6]), lit([[1, 2], [3, 4]]), lit([1, [2, 3]]), lit(["a", "bc"]), lit([1, "a"]), lit([7, 0, 2])]
+REPEAT_B = [(lit([1, 2, 3, 4, 5, 6]), lit([1, 2, 3, 4])), (lit([1, 2, 3, 4]), lit([1, 2, 3, 4, 5, 6])), (S("abcdefg"), S("abc")),
+            (lit([[1, 2], [3, 4]]), lit([[1, 2, 3], [4, 5, 6]])), (lit([1, [2, 3], 1]), lit([1, 2])),
+            (I(3), lit([1, 2, 3])), (lit([0, 1, 0, 1, 0]), lit([2, 3])), (R(2.5), lit([1.5, 2, 3]))]
+
+
+def py_rshape(v):
+    """Model.rshape on a universe value: the shape when the literal becomes a non-object ndarray, else None"""
+    t, x = v
+    if t in ("i", "r"):
+        return ()
+    if t != "l":
+        return None
+    if not x:
+        return (0,)
+    shs = [py_rshape(e) for e in x]
+    if shs[0] is None or any(q != shs[0] for q in shs):
+        return None
+    return (len(x),) + shs[0]
+
+
+def py_canonical(v):
+    """Model.canonical: kg_asarray builds a 1-D object array at every non-numeric level"""
+    t, x = v
+    if t != "l" or py_rshape(v) is not None:
+        return True
+    if all(e[0] == "l" for e in x) and len({len(e[1]) for e in x}) == 1:
+        return False
+    return all(py_canonical(e) for e in x)
+
+
+class Program:
+    __slots__ = ("kind", "fname", "stmts", "calls", "same", "each")
+
+    def __init__(self, kind, fname, stmts, calls=(), same=(), each=None):
+        # calls: [(statement index, request text)] results that must equal the spec of that request
+        # same: [(i, j)] statements whose results must be equal (operand variable unchanged, same call twice)
+        # each: (statement index, [request, request]) result must be the list of the two spec values
+        self.kind, self.fname, self.stmts, self.calls, self.same, self.each = kind, fname, stmts, list(calls), list(same), each
+
+
+def repeat_programs(keys_m, keys_d, tier):
+    A = REPEAT_A if tier == "thorough" else REPEAT_A[::2] + [lit([-1, 2]), lit([2, -1])]
+    B = REPEAT_B if tier == "thorough" else REPEAT_B[:5]
+    progs = []
+    for f in MODELLED_DYADS:
+        k = keys_d.get(f)
+        if k is None:
+            continue
+        for a in A:
+            ta = render(a)
+            for b1, b2 in B:
+                if hangs(f, a, b1) or hangs(f, a, b2):
+                    continue
+                t1, t2 = render(b1), render(b2)
+                q1, q2 = sx(["d", f, to_sx(a), to_sx(b1)]), sx(["d", f, to_sx(a), to_sx(b2)])
+                progs.append(Program("function", f, ["f::{(%s)%s(x)}" % (ta, k), "f(%s)" % t1, "f(%s)" % t2], calls=[(1, q1), (2, q2)]))
+                progs.append(Program("variable", f, ["s::%s" % ta, "s", "(s)%s(%s)" % (k, t1), "(s)%s(%s)" % (k, t2), "s"],
+                                     calls=[(2, q1), (3, q2)], same=[(1, 4)]))
+                if py_canonical(("l", [b1, b2])):
+                    progs.append(Program("each", f, ["{(%s)%s(x)}'[%s %s]" % (ta, k, t1, t2), "[%s %s]" % (t1, t2), t1, t2], each=(0, [q1, q2])))
+                if not hangs(f, b1, a):
+                    q3 = sx(["d", f, to_sx(b1), to_sx(a)])
+                    progs.append(Program("right-variable", f, ["t::%s" % ta, "t", "(%s)%s(t)" % (t1, k), "(%s)%s(t)" % (t1, k), "t"],
+                                         calls=[(2, q3), (3, q3)], same=[(1, 4), (2, 3)]))
+    for f in MODELLED_MONADS:
+        k = keys_m.get(f)
+        if k is None:
+            continue
+        for a1, a2 in B:
+            if hangs(f, a1, None) or hangs(f, a2, None):
+                continue
+            t1, t2 = render(a1), render(a2)
+            q1, q2 = sx(["m", f, to_sx(a1)]), sx(["m", f, to_sx(a2)])
+            progs.append(Program("function", f, ["f::{%s(x)}" % k, "f(%s)" % t1, "f(%s)" % t2], calls=[(1, q1), (2, q2)]))
+            progs.append(Program("variable", f, ["s::%s" % t1, "s", "%s(s)" % k, "%s(s)" % k, "s"], calls=[(2, q1), (3, q1)], same=[(1, 4), (2, 3)]))
+            if py_canonical(("l", [a1, a2])):
+                progs.append(Program("each", f, ["{%s(x)}'[%s %s]" % (k, t1, t2), "[%s %s]" % (t1, t2), t1, t2], each=(0, [q1, q2])))
+    return progs
+
+
+def evaluate_programs(chk, progs, out):
+    reqs = sorted({q for pr in progs for _, q in pr.calls} | {q for pr in progs if pr.each for q in pr.each[1]})
+    spec = {}
+    for q, mr in zip(reqs, chk.run_model(reqs)):
+        s_, dom, k = model_value(mr[1]), bool(mr[2]), (mr[3][1] if len(mr[3]) > 1 else "")
+        spec[q] = (mr[1], s_, dom and s_[0] == "ok" and str(k) == "")
+    res = run_impl([pr.stmts for pr in progs])
+    # expected value of an Each: the literal list of the two spec values, read back by the implementation itself
+    each_lits, each_idx = [], []
+    for n, pr in enumerate(progs):
+        if pr.each:
+            (raw1, s1, ok1), (raw2, s2, ok2) = spec[pr.each[1][0]], spec[pr.each[1][1]]
+            r = res[n]
+            # the operands must survive being written side by side in one literal, and no result may be a character
+            operands_kept = (not r[1].startswith(("ERR", "HANG"))) and r[1] == "(l %s %s)" % (r[2], r[3])
+            if ok1 and ok2 and operands_kept and raw1[1][0] != "c" and raw2[1][0] != "c":
+                l1, l2 = lit_of_sx(raw1[1]), lit_of_sx(raw2[1])
+                if l1 is not None and l2 is not None:
+                    each_lits.append("[%s %s]" % (l1, l2))
+                    each_idx.append(n)
+    each_exp = dict(zip(each_idx, run_impl(each_lits)))
+    for n, (pr, r) in enumerate(zip(progs, res)):
+        chk.count("evaluations")
+        chk.count("repeated_evaluation_programs")
+        chk.count("repeated:%s" % pr.kind)
+        text = "; ".join(pr.stmts)
+        def bad(what, exp, act):
+            out.prop_bad.append({"verb": pr.fname, "function": pr.fname, "klong": text, "expected": exp, "actual": act, "why": what})
+        for i, q in pr.calls:
+            raw, s_, ok = spec[q]
+            if ok:
+                chk.count("repeated_calls_checked")
+                if not same(impl_value(r[i]), s_):
+                    bad("call %d of a repeated evaluation differs from the reference value" % i, s_[1], r[i])
+                    break
+        else:
+            for i, j in pr.same:
+                if r[i] != r[j] and not r[i].startswith(("ERR", "HANG")) and not r[j].startswith("HANG"):
+                    bad("statements %d and %d must give the same value (an operand was written, or the call is not repeatable)" % (i, j), r[i], r[j])
+                    break
+            if pr.each and n in each_exp:
+                chk.count("repeated_each_checked")
+                if r[0] != each_exp[n]:
+                    bad("Each over two operands differs from the list of the two reference values", each_exp[n], r[0])
+
+
+# ---- reals at the edge of the int64 range, for every verb that turns reals into integers
+BOUNDARY_REALS = [2.0 ** 63, -(2.0 ** 63), 2.0 ** 63 - 1024, -(2.0 ** 63 - 1024), 2.0 ** 62, -(2.0 ** 62),
+                  2.0 ** 53 + 1, 2.0 ** 53 - 1, 1e18, 1e19, -1e19, 2.0 ** 63 + 2048]
+
+
+def boundary_cases(keys_m, keys_d):
+    cs = []
+    for x in BOUNDARY_REALS:
+        vs = [R(x), ("l", [R(x)]), ("l", [R(x), R(1.5)]), ("l", [I(1), ("l", [R(x)])]), ("l", [R(x), R(x)]), ("l", [("l", [R(x), R(2.5)]), ("l", [R(0.5), R(-x)])])]
+        for f in MODELLED_MONADS:
+            if f in keys_m and f not in ("eval_monad_enumerate", "eval_monad_expand_where", "eval_monad_char"):
+                for v in vs:
+                    cs.append(Case(f, keys_m[f], v))
+        for f in ("eval_dyad_add", "eval_dyad_subtract", "eval_dyad_multiply", "eval_dyad_divide", "eval_dyad_minimum", "eval_dyad_maximum",
+                  "eval_dyad_less", "eval_dyad_more", "eval_dyad_equal", "eval_dyad_match", "eval_dyad_integer_divide", "eval_dyad_remainder",
+                  "eval_dyad_join", "eval_dyad_find"):
+            if f in keys_d:
+                for p_ in (I(1), I(2), R(x), R(0.5)):
+                    cs.append(Case(f, keys_d[f], R(x), p_))
+                    cs.append(Case(f, keys_d[f], p_, R(x)))
+                    cs.append(Case(f, keys_d[f], ("l", [R(x), R(1.5)]), p_))
+    return cs
 
 
 def quick_cases(keys_m, keys_d, U, rng, n_sample):
@@ -723,6 +1040,12 @@ def run(tier, replay=None):
     chk.count("representation_variant_operands", nops)
     for i in range(0, len(rcases), B):
         evaluate(chk, rcases[i:i + B], out, seen)
+    # step 3b': reals at the edge of the int64 range
+    evaluate(chk, boundary_cases(keys_m, keys_d), out, seen)
+    # step 3c: repeated evaluation of the same operand object (function called twice, variable, Each)
+    progs = repeat_programs(keys_m, keys_d, tier)
+    for i in range(0, len(progs), 6000):
+        evaluate_programs(chk, progs[i:i + 6000], out)
     for k, h in out.known_hits.items():
         chk.finding("C01-" + k, "known-finding class %s: %s gives %s, reference prescribes %s" % (k, h["klong"], h["actual"], h["expected"]), h)
 
@@ -736,9 +1059,17 @@ def run(tier, replay=None):
         if not verbs:
             rng.shuffle(wide)
             wide = wide[:60000]
-        chk.count("wide_search_cases", len(wide))
-        for i in range(0, len(wide), B):
-            evaluate(chk, wide[i:i + B], out, seen)
+        # hard budget of the quick tier: the verdict (a broken obligation / correspondence) is already fixed, the sweep only
+        # looks for a concrete failing input; it is cut at 40 000 cases and stops once 240 s of the run are used
+        rng.shuffle(wide)
+        wide = wide[:40000]
+        done = 0
+        for i in range(0, len(wide), 10000):
+            if time.time() - chk.t0 > 240 or out.prop_bad:
+                break
+            evaluate(chk, wide[i:i + 10000], out, seen)
+            done += len(wide[i:i + 10000])
+        chk.count("wide_search_cases", done)
     reported = set()
     for pb in out.prop_bad:
         key = (pb["function"],)
